@@ -1164,4 +1164,293 @@ theorem run_good_inv (s : Spec κ ν) (st : St κ ν) (cur : Cur κ ν) (order :
 
 end Build
 
+section Children
+variable {κ ν : Type} [DecidableEq κ]
+
+
+theorem mem_addChild (cs : List (Child κ)) (x c : Child κ) : c ∈ addChild cs x ↔ c ∈ cs ∨ c = x := by
+  unfold addChild
+  by_cases h : x ∈ cs
+  · simp only [h, ↓reduceIte]
+    constructor
+    · exact Or.inl
+    · rintro (h' | rfl) <;> assumption
+  · simp [h]
+
+theorem nodup_addChild (cs : List (Child κ)) (x : Child κ) (h : cs.Nodup) : (addChild cs x).Nodup := by
+  unfold addChild
+  by_cases hx : x ∈ cs
+  · simp [hx, h]
+  · simp only [hx, ↓reduceIte]
+    rw [List.nodup_append]
+    refine ⟨h, by simp, ?_⟩
+    intro a ha b hb
+    simp at hb; subst hb
+    intro e; exact hx (e ▸ ha)
+
+theorem mem_foldItems (m : Dict κ) (Y : List (Child κ)) (c : Child κ) :
+    c ∈ m.foldl (fun cs kv => addChild cs (.item kv.1 kv.2)) Y ↔
+      c ∈ Y ∨ ∃ kv ∈ m, c = .item kv.1 kv.2 := by
+  induction m generalizing Y with
+  | nil => simp
+  | cons kv r ih =>
+    simp only [List.foldl_cons, ih, mem_addChild, List.mem_cons, exists_eq_or_imp]
+    constructor
+    · rintro ((h | h) | h)
+      · exact Or.inl h
+      · exact Or.inr (Or.inl h)
+      · exact Or.inr (Or.inr h)
+    · rintro (h | h | h)
+      · exact Or.inl (Or.inl h)
+      · exact Or.inl (Or.inr h)
+      · exact Or.inr h
+
+theorem nodup_foldItems (m : Dict κ) (Y : List (Child κ)) (h : Y.Nodup) :
+    (m.foldl (fun cs kv => addChild cs (.item kv.1 kv.2)) Y).Nodup := by
+  induction m generalizing Y with
+  | nil => exact h
+  | cons kv r ih => exact ih _ (nodup_addChild Y _ h)
+
+theorem mem_addBody (cs : List (Child κ)) (n : Nat) (m : Dict κ) (c : Child κ) :
+    c ∈ addBody cs n m ↔ c ∈ cs ∨ c = .body n ∨ ∃ kv ∈ m, c = .item kv.1 kv.2 := by
+  unfold addBody
+  rw [mem_foldItems]
+  simp [or_assoc]
+
+theorem nodup_addBody (cs : List (Child κ)) (n : Nat) (m : Dict κ) (h : cs.Nodup) (hb : Child.body n ∉ cs) :
+    (addBody cs n m).Nodup := by
+  unfold addBody
+  apply nodup_foldItems
+  rw [List.nodup_append]
+  refine ⟨h, by simp, ?_⟩
+  intro a ha b hb'
+  simp at hb'; subst hb'
+  intro e; exact hb (e ▸ ha)
+
+theorem mem_addBodies (cs : List (Child κ)) (n : Nat) (maps : List (Dict κ)) (c : Child κ) :
+    c ∈ addBodies cs n maps ↔
+      c ∈ cs ∨ (∃ j, j < maps.length ∧ c = .body (n + j)) ∨ ∃ m ∈ maps, ∃ kv ∈ m, c = .item kv.1 kv.2 := by
+  induction maps generalizing cs n with
+  | nil => simp [addBodies]
+  | cons m r ih =>
+    simp only [addBodies, ih, mem_addBody, List.length_cons, List.mem_cons, exists_eq_or_imp]
+    constructor
+    · rintro ((h | h | h) | ⟨j, hj, h⟩ | h)
+      · exact Or.inl h
+      · exact Or.inr (Or.inl ⟨0, by omega, by simpa using h⟩)
+      · exact Or.inr (Or.inr (Or.inl h))
+      · exact Or.inr (Or.inl ⟨j + 1, by omega, by rw [h]; congr 1; omega⟩)
+      · exact Or.inr (Or.inr (Or.inr h))
+    · rintro (h | ⟨j, hj, h⟩ | h | h)
+      · exact Or.inl (Or.inl h)
+      · cases j with
+        | zero => exact Or.inl (Or.inr (Or.inl (by simpa using h)))
+        | succ j => exact Or.inr (Or.inl ⟨j, by omega, by rw [h]; congr 1; omega⟩)
+      · exact Or.inl (Or.inr (Or.inr h))
+      · exact Or.inr (Or.inr h)
+
+theorem nodup_addBodies (cs : List (Child κ)) (n : Nat) (maps : List (Dict κ)) (h : cs.Nodup)
+    (hb : ∀ j, Child.body (n + j) ∉ cs) : (addBodies cs n maps).Nodup := by
+  induction maps generalizing cs n with
+  | nil => exact h
+  | cons m r ih =>
+    simp only [addBodies]
+    apply ih _ _ (nodup_addBody cs n m h (by simpa using hb 0))
+    intro j hj
+    rw [mem_addBody] at hj
+    rcases hj with hj | hj | ⟨kv, _, hj⟩
+    · exact hb (1 + j) (by rw [← Nat.add_assoc]; exact hj)
+    · simp at hj; omega
+    · cases hj
+
+end Children
+
+section Items
+variable {κ ν : Type} [DecidableEq κ]
+
+
+/-- an entry of a nested index map is an index into the list of its key -/
+theorem mem_zip_below (N : List (κ × Nat)) (idx : List Nat) (h : Below idx (N.map (·.2))) (k : κ) (i : Nat)
+    (hm : (k, i) ∈ (N.map (·.1)).zip idx) : ∃ n, (k, n) ∈ N ∧ i < n := by
+  induction N generalizing idx with
+  | nil => simp at hm
+  | cons p r ih =>
+    cases idx with
+    | nil => simp at hm
+    | cons i0 t =>
+      simp only [List.map_cons, Below] at h
+      simp only [List.map_cons, List.zip_cons_cons, List.mem_cons, Prod.mk.injEq] at hm
+      rcases hm with ⟨rfl, rfl⟩ | hm
+      · exact ⟨p.2, by simp, h.1⟩
+      · obtain ⟨n, hn, hi⟩ := ih t h.2 hm
+        exact ⟨n, by simp [hn], hi⟩
+
+theorem below_zeros (l : List Nat) (h : ∀ n ∈ l, 0 < n) : Below (l.map fun _ => 0) l := by
+  induction l with
+  | nil => trivial
+  | cons a r ih => exact ⟨h a (by simp), ih fun n hn => h n (by simp [hn])⟩
+
+/-- conversely every index of every nested key occurs in some valid index tuple -/
+theorem exists_idx (N : List (κ × Nat)) (hpos : ∀ p ∈ N, 0 < p.2) (k : κ) (n i : Nat) (hk : (k, n) ∈ N)
+    (hi : i < n) : ∃ idx, Below idx (N.map (·.2)) ∧ (k, i) ∈ (N.map (·.1)).zip idx := by
+  induction N with
+  | nil => cases hk
+  | cons p r ih =>
+    have hr : ∀ q ∈ r, 0 < q.2 := fun q hq => hpos q (by simp [hq])
+    rcases List.mem_cons.mp hk with rfl | hk
+    · refine ⟨i :: (r.map (·.2)).map (fun _ => 0), ⟨hi, below_zeros _ ?_⟩, by simp⟩
+      intro m hm
+      obtain ⟨q, hq, rfl⟩ := List.mem_map.mp hm
+      exact hr q hq
+    · obtain ⟨idx, hb, hm⟩ := ih hr hk
+      exact ⟨0 :: idx, ⟨hpos p (by simp), hb⟩, by simp [hm]⟩
+
+/-- the get-item nodes used by the reference maps: every index of every nested key, and the
+common indices of the zipped keys -/
+theorem items_refMaps (N Z : List (κ × Nat)) (g : Guard N Z) (k : κ) (i : Nat) :
+    (∃ m ∈ refMaps N Z, (k, i) ∈ m) ↔
+      (∃ p ∈ N, k = p.1 ∧ i < p.2) ∨ (∃ p ∈ Z, k = p.1 ∧ i < zipCount Z) := by
+  have hposN : ∀ p ∈ N, 0 < p.2 := fun p hp => g.pos p (by simp [hp])
+  have hposZ : ∀ p ∈ Z, 0 < p.2 := fun p hp => g.pos p (by simp [hp])
+  constructor
+  · rintro ⟨m, hm, hki⟩
+    obtain ⟨idx, z, hidx, hz, rfl⟩ := (mem_refMaps N Z m).mp hm
+    rcases List.mem_append.mp hki with h | h
+    · obtain ⟨n, hn, hi⟩ := mem_zip_below N idx hidx k i h
+      exact Or.inl ⟨(k, n), hn, rfl, hi⟩
+    · simp only [List.mem_map, Prod.mk.injEq] at h
+      obtain ⟨p, hp, rfl, rfl⟩ := h
+      exact Or.inr ⟨p, hp, rfl, hz⟩
+  · rintro (⟨p, hp, rfl, hi⟩ | ⟨p, hp, rfl, hi⟩)
+    · obtain ⟨idx, hb, hm⟩ := exists_idx N hposN p.1 p.2 i hp hi
+      refine ⟨_, (mem_refMaps N Z _).mpr ⟨idx, 0, hb, zipCount_pos Z hposZ, rfl⟩, ?_⟩
+      simp [hm]
+    · have hb := below_zeros (N.map (·.2)) (by
+        intro n hn; obtain ⟨q, hq, rfl⟩ := List.mem_map.mp hn; exact hposN q hq)
+      refine ⟨_, (mem_refMaps N Z _).mpr ⟨_, i, hb, hi, rfl⟩, ?_⟩
+      simp only [List.mem_append, List.mem_map]
+      exact Or.inr ⟨p, hp, rfl⟩
+
+/-- explicit duplicate-free enumeration of the children a build creates below the collectors -/
+def enumBodies (N Z : List (κ × Nat)) : List (Child κ) :=
+  (List.range (rowCount N Z)).map .body
+    ++ ((N.flatMap fun p => (List.range p.2).map (.item p.1))
+        ++ Z.flatMap fun p => (List.range (zipCount Z)).map (.item p.1))
+
+theorem nodup_itemBlocks (L : List (κ × Nat)) (f : κ × Nat → Nat) (h : (L.map (·.1)).Nodup) :
+    (L.flatMap fun p => (List.range (f p)).map (Child.item p.1)).Nodup := by
+  show List.Pairwise (· ≠ ·) _
+  rw [List.pairwise_flatMap]
+  refine ⟨?_, ?_⟩
+  · intro p _
+    apply nodup_map_of_inj_on _ _ List.nodup_range
+    intro a _ b _ e
+    cases e; rfl
+  · have : L.Pairwise (fun p q => p.1 ≠ q.1) := by
+      have := h
+      rw [List.Nodup, List.pairwise_map] at this
+      exact this
+    refine this.imp ?_
+    intro p q hpq x hx y hy e
+    simp only [List.mem_map] at hx hy
+    obtain ⟨_, _, rfl⟩ := hx
+    obtain ⟨_, _, rfl⟩ := hy
+    simp only [Child.item.injEq] at e
+    exact hpq e.1
+
+end Items
+
+section Count
+variable {κ ν : Type} [DecidableEq κ]
+
+
+theorem mem_enumBodies (N Z : List (κ × Nat)) (c : Child κ) :
+    c ∈ enumBodies N Z ↔
+      (∃ j, j < rowCount N Z ∧ c = .body j) ∨
+      (∃ p ∈ N, ∃ i, i < p.2 ∧ c = .item p.1 i) ∨ (∃ p ∈ Z, ∃ i, i < zipCount Z ∧ c = .item p.1 i) := by
+  simp only [enumBodies, List.mem_append, List.mem_map, List.mem_range, List.mem_flatMap]
+  constructor
+  · rintro (⟨j, hj, rfl⟩ | ⟨p, hp, i, hi, rfl⟩ | ⟨p, hp, i, hi, rfl⟩)
+    · exact Or.inl ⟨j, hj, rfl⟩
+    · exact Or.inr (Or.inl ⟨p, hp, i, hi, rfl⟩)
+    · exact Or.inr (Or.inr ⟨p, hp, i, hi, rfl⟩)
+  · rintro (⟨j, hj, rfl⟩ | ⟨p, hp, i, hi, rfl⟩ | ⟨p, hp, i, hi, rfl⟩)
+    · exact Or.inl ⟨j, hj, rfl⟩
+    · exact Or.inr (Or.inl ⟨p, hp, i, hi, rfl⟩)
+    · exact Or.inr (Or.inr ⟨p, hp, i, hi, rfl⟩)
+
+theorem nodup_enumBodies (N Z : List (κ × Nat)) (h : ((N ++ Z).map (·.1)).Nodup) :
+    (enumBodies N Z).Nodup := by
+  have hnd : (N.map (·.1) ++ Z.map (·.1)).Nodup := by simpa using h
+  obtain ⟨hN, hZ, hdis⟩ := List.nodup_append.mp hnd
+  unfold enumBodies
+  rw [List.nodup_append]
+  refine ⟨?_, ?_, ?_⟩
+  · apply nodup_map_of_inj_on _ _ List.nodup_range
+    intro a _ b _ e; cases e; rfl
+  · rw [List.nodup_append]
+    refine ⟨nodup_itemBlocks N (·.2) hN, nodup_itemBlocks Z (fun _ => zipCount Z) hZ, ?_⟩
+    intro a ha b hb e
+    simp only [List.mem_flatMap, List.mem_map] at ha hb
+    obtain ⟨p, hp, _, _, rfl⟩ := ha
+    obtain ⟨q, hq, _, _, rfl⟩ := hb
+    simp only [Child.item.injEq] at e
+    exact hdis p.1 (List.mem_map.mpr ⟨p, hp, rfl⟩) q.1 (List.mem_map.mpr ⟨q, hq, rfl⟩) e.1
+  · intro a ha b hb e
+    simp only [List.mem_map] at ha
+    obtain ⟨_, _, rfl⟩ := ha
+    simp only [List.mem_append, List.mem_flatMap, List.mem_map] at hb
+    rcases hb with ⟨_, _, _, _, rfl⟩ | ⟨_, _, _, _, rfl⟩ <;> cases e
+
+theorem sum_map_length_blocks (L : List (κ × Nat)) :
+    (L.flatMap fun p => (List.range p.2).map (Child.item p.1)).length = (L.map (·.2)).sum := by
+  induction L with
+  | nil => rfl
+  | cons p r ih => simp [ih]
+
+theorem length_enumBodies (N Z : List (κ × Nat)) :
+    (enumBodies N Z).length = rowCount N Z + ((N.map (·.2)).sum + Z.length * zipCount Z) := by
+  unfold enumBodies
+  rw [List.length_append, List.length_append, sum_map_length_blocks,
+    length_flatMap_const _ _ (zipCount Z) (by intro a _; simp)]
+  simp
+
+/-- the bodies and get-item nodes of a build along the reference maps, counted -/
+theorem length_addBodies_ref (N Z : List (κ × Nat)) (g : Guard N Z) :
+    (addBodies ([] : List (Child κ)) 0 (refMaps N Z)).length
+      = rowCount N Z + ((N.map (·.2)).sum + Z.length * zipCount Z) := by
+  rw [← length_enumBodies]
+  apply List.Perm.length_eq
+  rw [List.perm_ext_iff_of_nodup (nodup_addBodies [] 0 _ (by simp) (by simp)) (nodup_enumBodies N Z g.nodup)]
+  intro c
+  rw [mem_addBodies, mem_enumBodies, length_refMaps]
+  simp only [List.not_mem_nil, false_or, Nat.zero_add]
+  constructor
+  · rintro (h | ⟨m, hm, kv, hkv, rfl⟩)
+    · exact Or.inl h
+    · rcases (items_refMaps N Z g kv.1 kv.2).mp ⟨m, hm, hkv⟩ with ⟨p, hp, h1, h2⟩ | ⟨p, hp, h1, h2⟩
+      · exact Or.inr (Or.inl ⟨p, hp, kv.2, h2, by rw [h1]⟩)
+      · exact Or.inr (Or.inr ⟨p, hp, kv.2, h2, by rw [h1]⟩)
+  · rintro (h | ⟨p, hp, i, hi, rfl⟩ | ⟨p, hp, i, hi, rfl⟩)
+    · exact Or.inl h
+    · obtain ⟨m, hm, hki⟩ := (items_refMaps N Z g p.1 i).mpr (Or.inl ⟨p, hp, rfl, hi⟩)
+      exact Or.inr ⟨m, hm, (p.1, i), hki, rfl⟩
+    · obtain ⟨m, hm, hki⟩ := (items_refMaps N Z g p.1 i).mpr (Or.inr ⟨p, hp, rfl, hi⟩)
+      exact Or.inr ⟨m, hm, (p.1, i), hki, rfl⟩
+
+theorem length_freshChildren_ref (s : Spec κ ν) (N Z : List (κ × Nat)) (g : Guard N Z) :
+    (s.bodyInputs.map Child.input ++ freshChildren s (refMaps N Z)).length = childCount s N Z := by
+  unfold freshChildren addCollectors childCount
+  cases s.asDf with
+  | true =>
+    simp only [↓reduceIte, List.length_append, List.length_map, List.length_cons, List.length_nil,
+      List.length_range, length_addBodies_ref N Z g, length_refMaps]
+    unfold rowCount; omega
+  | false =>
+    simp only [Bool.false_eq_true, ↓reduceIte, List.length_append, List.length_map,
+      length_addBodies_ref N Z g]
+    omega
+
+end Count
+
 end PwVerif.ForLoop
